@@ -194,6 +194,14 @@ def build_items(prop, tier, seed):
     for name, it in enumerate_items.all_items(spec.get('enums')):
         items.append(('enum:' + name, it))
     rng = random.Random(seed)
+    # re-spelled / re-grouped copies of enumerator items: the same options in another order, split over several attributes
+    # or merged into one, with trailing commas (what the documentation calls equivalent; the model decides)
+    import copy as _copy
+    import items as _items
+    base = [x for x in items if x[0].startswith('enum:')]
+    for name, it in rng.sample(base, min(len(base), 500 if tier == 'quick' else 2500)):
+        c = _copy.deepcopy(it)
+        items.append(('respelled:' + name[5:], _items.respell(rng, _items.regroup(rng, c), p=0.3)))
     n = 2500 if tier == 'quick' else 12000
     pm = spec.get('malformed', 0.2)
     for _ in range(n):
